@@ -178,6 +178,19 @@ def _formulas(call):
         ua = flw.upstream_area("km2")
         if not np.all(np.isfinite(ua)) or not np.allclose(ua, np.asarray(A) / 1e6, rtol=1e-6):
             bad.append(f"upstream_area('km2') on all-pit {nr}x{nc} geographic raster: {ua.ravel()[:4]}")
+        # the object's areas / path lengths follow the CURRENT georeference, also after an earlier query on a memoising
+        # object and a set_transform that changes only the latlon flag or only the affine (round-2 seed)
+        if nr * nc > 1:
+            obj = pyflwdir.from_array(np.zeros((nr, nc), dtype=np.uint8), ftype="d8", transform=tr, latlon=False)
+            _ = (obj.area, obj.distnc)
+            flip = rng.choice(["latlon", "affine", "both"])
+            tr2 = tr if flip == "latlon" else Affine(xres * 2, 0.0, 3.0, 0.0, yres, 20.0)
+            ll2 = flip != "affine"
+            obj.set_transform(tr2, ll2)
+            if not np.array_equal(obj.area, g.area_grid(tr2, (nr, nc), ll2, "m2")):
+                bad.append(f"object area after set_transform({flip}) on a {nr}x{nc} raster is not area_grid of the new georeference: {obj.area.ravel()[:3]}")
+            if not np.array_equal(obj.upstream_area("m2"), g.area_grid(tr2, (nr, nc), ll2, "m2").astype(obj.upstream_area("m2").dtype)):
+                bad.append(f"upstream_area('m2') after set_transform({flip}) on an all-pit {nr}x{nc} raster: {obj.upstream_area('m2').ravel()[:3]}")
         if rng.random() < 0.3:
             res = rng.choice([10.0, 5.0, 30.0])
             trg = Affine(res, 0.0, -180.0, 0.0, -res, 90.0)
